@@ -170,10 +170,10 @@ func ledgerDiff(w *sim.World) []string {
 		exp["cfg/allowance"] = l.Allow.String()
 	}
 	if l.Burned.Sign() != 0 {
-		exp["burned/"+l.Denom] = l.Burned.String()
+		exp["burned/"+l.NDenom()] = l.Burned.String()
 	}
 	if l.Minted.Sign() != 0 {
-		exp["minted/"+l.Denom] = l.Minted.String()
+		exp["minted/"+l.NDenom()] = l.Minted.String()
 	}
 	keys := map[string]bool{}
 	for k := range exp {
